@@ -3,22 +3,42 @@
 // of call starts and commit-handler gate releases, and reports per scenario
 // the addresses obtained, the observed transaction life-cycle events (the
 // schedule) and the property oracle: duplicate_address, index_gap,
-// memory_disk_disagree.
+// memory_disk_disagree, last_address_disagree,
+// cached_address_unknown_to_database, restart_reissues_address,
+// recovered_address_reissued.
+//
+// Besides the wallet's own address requests it drives: ImportAccountDryRun
+// (a dry run deriving n addresses per branch of a throw-away account),
+// recovery (wallet.recovery through the VerifRecovery hook with a chain that
+// reports one index as found: Extend{External,Internal}Addresses), and - as a
+// NEGATIVE CONTROL and as a stand-in for an issuing site outside package wallet
+// that the table extractor reports - an issuer that goes through
+// w.Manager directly without the wallet's address mutex (RawNext*).
+//
+// Two database modes: the default one (proxydb runs the OnCommit handlers
+// itself after the real commit: every placement of the window is scriptable)
+// and "native" (the handlers are forwarded to bdb/bbolt, which runs them in
+// its own Commit after releasing the writer lock: the real commit ordering;
+// the gate is then itself the first commit handler).
 package main
 
 import (
 	"bytes"
+	"encoding/binary"
 	"encoding/json"
 	"errors"
 	"flag"
 	"fmt"
 	"os"
+	"os/exec"
 	"path/filepath"
 	"runtime"
+	"regexp"
 	"sort"
 	"strconv"
 	"strings"
 	"sync"
+	"sync/atomic"
 	"time"
 
 	"github.com/btcsuite/btcd/btcec/v2"
@@ -54,6 +74,12 @@ type callSpec struct {
 	Scope   string `json:"scope"`             // "84" | "86" | "49"
 	Account uint32 `json:"account,omitempty"` // 0 (default) or 1 (scope 84 only)
 	Gate    bool   `json:"gate"`              // park this call between its commit and its commit handlers
+	// RawNextExternal / RawNextInternal / ImportAccountDryRun: addresses derived
+	// per branch by the one transaction (default 1)
+	N uint32 `json:"n,omitempty"`
+	// RecoverExternal / RecoverInternal (account 0): the chain reports index
+	// (key count of the branch before the concurrent phase) + Ahead as found
+	Ahead uint32 `json:"ahead,omitempty"`
 }
 
 type stepSpec struct {
@@ -67,7 +93,15 @@ type scenario struct {
 	Warm     bool       `json:"warm"`      // read AccountProperties of every scope first (account cached)
 	Calls    []callSpec `json:"calls"`
 	Script   []stepSpec `json:"script"`
-	Kind     string     `json:"kind"` // window | chain | random | stress (documentation + tags)
+	Kind     string     `json:"kind"` // window | chain | random | stress | recovery | control (documentation + tags)
+	// sequential requests made after the concurrent phase is over (what does
+	// the wallet hand out NEXT)
+	Post []callSpec `json:"post,omitempty"`
+	// the OnCommit handlers are run by bdb/bbolt itself (real commit ordering)
+	Native bool `json:"native,omitempty"`
+	// the RawNext* calls of this scenario stand for this issuing site found in
+	// the source (not drivable by name); empty: they are a negative control
+	StandIn string `json:"stand_in,omitempty"`
 }
 
 // ------------------------------------------------------------ observations
@@ -79,9 +113,14 @@ type callObs struct {
 	Account uint32 `json:"account"` // account whose counter this call draws from
 	Branch  uint32 `json:"branch"`  // 0 external, 1 internal
 	Addr    string `json:"addr"`
+	Addrs   []string `json:"addrs"`  // every address the call returned (Addr is the first)
+	Indices []int64  `json:"indices"` // their derivation indices on (Scope, Account, Branch); -1 = elsewhere / unknown
+	Stack   []string `json:"stack"`  // repository functions on the stack when its write transaction began, innermost first
+	Found   int64  `json:"found"`   // Recover*: the index reported as found, else -1
 	Index   int64  `json:"index"`   // derivation index of Addr, -1 if none / not found
 	Err     string `json:"err"`     // error returned by the API
 	N       int    `json:"n"`       // derivations requested by its transaction: OnCommit registrations (one per nextAddresses call); 1 if it wrote without registering any
+	Derived int    `json:"derived"` // addresses its transaction derives from the counter it draws from (RawNext*: n; else N)
 	Writes  int    `json:"writes"`  // mutating database calls of its transaction
 	Commits bool   `json:"commits"` // its transaction committed
 	Blocked bool   `json:"blocked"` // found blocked (not begun) right after its start while another call was parked
@@ -99,16 +138,34 @@ type branchObs struct {
 	Branch    uint32  `json:"branch"`
 	N0        uint32  `json:"n0"`         // key count on disk before the concurrent phase
 	Cached    bool    `json:"cached"`     // the account was loaded into memory before the concurrent phase
-	Issued    []int64 `json:"issued"`     // indices obtained by committed calls, in call order
+	Issued    []int64 `json:"issued"`     // indices obtained by committed calls (concurrent, then post), in call order
+	Extended  []int64 `json:"extended"`   // highest index a committed recovery of this scenario extended this branch through (one per recovery)
 	MemAfter  uint32  `json:"mem_after"`  // key count the running wallet reports afterwards
 	DiskAfter uint32  `json:"disk_after"` // key count a fresh waddrmgr.Open on a copy of the file reports
+	// the account's last address of this branch (what the commit handler also
+	// writes): as the running manager answers, and as a restarted one does;
+	// given as (branch, index) of the returned address, index -1 = not a chained address of this account
+	LastMem  [2]int64 `json:"last_mem"`
+	LastDisk [2]int64 `json:"last_disk"`
+	// indices >= N0 on this branch of the addresses found in the running
+	// manager's address cache right after the scenario
+	Cache []int64 `json:"cache"`
+	// the address a restarted manager hands out next on this branch
+	RestartNext      string `json:"restart_next"`
+	RestartNextIndex int64  `json:"restart_next_index"`
 }
 
 type obs struct {
 	Calls    []callObs   `json:"calls"`
+	Post     []callObs   `json:"post"`
 	Events   []event     `json:"events"`
 	Branches []branchObs `json:"branches"`
 	Notes    []string    `json:"notes"`
+	// addresses in the running manager's cache that a restarted manager does not know
+	CachePhantoms []string `json:"cache_phantoms"`
+	// violation kinds seen in a negative-control scenario (they are expected there)
+	Control []string `json:"control"`
+	Native  bool     `json:"native"`
 }
 
 type caseOut struct {
@@ -133,6 +190,7 @@ var (
 	scopeNames = []string{"49", "84", "86"}
 	// the index counters observed: account 0 of every scope, account 1 of scope 84
 	counters   = []ctr{{"49", 0}, {"84", 0}, {"84", 1}, {"86", 0}}
+	dryXpub    *hdkeychain.ExtendedKey // account public key (another seed) for ImportAccountDryRun
 	fundHash   chainhash.Hash // txid of the funding transaction of the template
 	fundScript []byte         // pays external address 0 of account 0, scope 84 (output 0)
 )
@@ -155,36 +213,95 @@ func isImportedSpend(api string) bool {
 	return api == "SpendImported" || api == "SpendImportedDry" || api == "FundPsbtImported"
 }
 
+// viaCreator: requests that wallet.CreateSimpleTx hands to the wallet's
+// transaction-creator goroutine (their write transaction is not opened by the
+// calling goroutine).
+func viaCreator(api string) bool {
+	switch api {
+	case "CreateSimpleTx", "CreateSimpleTxDry", "SpendImported", "SpendImportedDry":
+		return true
+	}
+	return false
+}
+
+func isFund(api string) bool { return api == "FundPsbt" || api == "FundPsbtImported" }
+
+// isRaw: an issuer that calls the scoped manager directly inside its own
+// walletdb.Update, WITHOUT the wallet's address mutex (what a function outside
+// package wallet - or one that forgot the lock - does).
+func isRaw(api string) bool { return api == "RawNextExternal" || api == "RawNextInternal" }
+
+func isRecover(api string) bool { return api == "RecoverExternal" || api == "RecoverInternal" }
+
+// isReader: a request that only READS the address manager's account state
+// (no write transaction): what a balance / account listing RPC does while
+// addresses are being issued.  It is no thread of the model; it is there for
+// the race detector.
+func isReader(api string) bool { return api == "ReadAccount" }
+
 // counterOf is the (scope, account) whose next index the call advances: a
-// spend from the imported account creates its change on account 0.
+// spend from the imported account creates its change on account 0; recovery
+// extends account 0; the dry-run import works on an account of its own that
+// never exists outside its rolled-back transaction.
 func counterOf(c callSpec) ctr {
-	if isImportedSpend(c.API) {
+	switch {
+	case isImportedSpend(c.API), isRecover(c.API):
 		return ctr{c.Scope, 0}
+	case c.API == "ImportAccountDryRun":
+		return ctr{"dry", 0}
 	}
 	return ctr{c.Scope, c.Account}
 }
 
 const fundAmount = 100000000
 
-// siteOf maps an API call to the wallet function that opens the issuing
-// transaction (the name used in the generated site table).
-func siteOf(api string) string {
-	switch api {
-	case "CreateSimpleTx", "CreateSimpleTxDry", "SpendImported", "SpendImportedDry":
-		return "txToOutputs"
-	case "FundPsbtImported":
-		return "FundPsbt"
-	default:
-		return api
-	}
-}
-
 func branchOf(api string) uint32 {
 	switch api {
-	case "NewAddress", "CurrentAddress":
+	case "NewAddress", "CurrentAddress", "RawNextExternal", "RecoverExternal":
 		return waddrmgr.ExternalBranch
 	}
 	return waddrmgr.InternalBranch
+}
+
+// ------------------------------------------------------------- call sites
+
+const modPrefix = "github.com/btcsuite/btcwallet/"
+
+var closureSuffix = regexp.MustCompile(`(\.(func|gowrap|deferwrap)\d+(\.\d+)*)+$`)
+
+// repoStack returns the functions of the repository under test on the
+// current goroutine's stack, innermost first, without the walletdb packages
+// and with closures folded into the function that contains them.  The first
+// entry is the function that opened the transaction: the name the site table
+// generated from the source uses (package path relative to the module, e.g.
+// "wallet.(*Wallet).NewAddress").  Nothing here knows a function by name.
+func repoStack() []string {
+	pcs := make([]uintptr, 96)
+	n := runtime.Callers(2, pcs)
+	frames := runtime.CallersFrames(pcs[:n])
+	var out []string
+	for {
+		f, more := frames.Next()
+		if strings.HasPrefix(f.Function, modPrefix) {
+			rel := f.Function[len(modPrefix):]
+			if !strings.HasPrefix(rel, "walletdb.") && !strings.HasPrefix(rel, "walletdb/") {
+				for {
+					r2 := closureSuffix.ReplaceAllString(rel, "")
+					if r2 == rel {
+						break
+					}
+					rel = r2
+				}
+				if len(out) == 0 || out[len(out)-1] != rel {
+					out = append(out, rel)
+				}
+			}
+		}
+		if !more {
+			break
+		}
+	}
+	return out
 }
 
 // --------------------------------------------------------- fake chain client
@@ -227,6 +344,46 @@ func (fakeChain) TestMempoolAccept([]*wire.MsgTx, float64) ([]*btcjson.TestMempo
 	return nil, nil
 }
 func (fakeChain) MapRPCErr(err error) error { return err }
+
+// recChain is the chain backend handed to wallet.recovery: two blocks above
+// the wallet's sync point, the first of which pays to ONE wallet address (scope,
+// branch, index found); the second FilterBlocks request finds nothing more.
+type recChain struct {
+	fakeChain
+	start, best int32
+	scope       waddrmgr.KeyScope
+	internal    bool
+	found       uint32
+	calls       int32
+}
+
+func (c *recChain) hash(h int32) chainhash.Hash {
+	return chainhash.Hash{0xec, byte(h), byte(h >> 8), byte(h >> 16)}
+}
+func (c *recChain) GetBestBlock() (*chainhash.Hash, int32, error) {
+	h := c.hash(c.best)
+	return &h, c.best, nil
+}
+func (c *recChain) GetBlockHash(h int64) (*chainhash.Hash, error) {
+	x := c.hash(int32(h))
+	return &x, nil
+}
+func (c *recChain) GetBlockHeader(*chainhash.Hash) (*wire.BlockHeader, error) {
+	return &wire.BlockHeader{Timestamp: time.Unix(1700000100, 0)}, nil
+}
+func (c *recChain) FilterBlocks(req *chain.FilterBlocksRequest) (*chain.FilterBlocksResponse, error) {
+	if atomic.AddInt32(&c.calls, 1) > 1 || len(req.Blocks) == 0 {
+		return nil, nil
+	}
+	m := map[waddrmgr.KeyScope]map[uint32]struct{}{c.scope: {c.found: {}}}
+	resp := &chain.FilterBlocksResponse{BatchIndex: 0, BlockMeta: req.Blocks[0]}
+	if c.internal {
+		resp.FoundInternalAddrs = m
+	} else {
+		resp.FoundExternalAddrs = m
+	}
+	return resp, nil
+}
 
 // ------------------------------------------------------------- goroutine ids
 
@@ -301,6 +458,10 @@ func fastKeyGen(passphrase *[]byte, _ *waddrmgr.ScryptOptions) (*snacl.SecretKey
 	return snacl.NewSecretKey(passphrase, 16, 8, 1)
 }
 
+// look-ahead of the recovery runs (the found index is at most a few above the
+// key count; a small window keeps the horizon expansion cheap)
+const recoveryWindow = 8
+
 type opened struct {
 	path  string
 	real  walletdb.DB
@@ -314,7 +475,7 @@ func (e *env) open(path string) (*opened, error) {
 		return nil, err
 	}
 	p := proxydb.New(db)
-	w, err := wallet.Open(p, pubPass, nil, params, 250)
+	w, err := wallet.Open(p, pubPass, nil, params, recoveryWindow)
 	if err != nil {
 		db.Close()
 		return nil, err
@@ -353,6 +514,25 @@ func (e *env) makeTemplate() error {
 		return err
 	}
 	if err := db.Close(); err != nil {
+		return err
+	}
+	// m/84'/1'/5' of an unrelated seed, as a testnet BIP-0084 account public key
+	other, err := hdkeychain.NewMaster(bytes.Repeat([]byte{0x3c}, hdkeychain.RecommendedSeedLen), params)
+	if err != nil {
+		return err
+	}
+	k := other
+	for _, i := range []uint32{84, 1, 5} {
+		if k, err = k.Derive(hdkeychain.HardenedKeyStart + i); err != nil {
+			return err
+		}
+	}
+	if k, err = k.Neuter(); err != nil {
+		return err
+	}
+	var ver [4]byte
+	binary.BigEndian.PutUint32(ver[:], uint32(waddrmgr.HDVersionTestNetBIP0084))
+	if dryXpub, err = k.CloneWithVersion(ver[:]); err != nil {
 		return err
 	}
 	o, err := e.open(e.template)
@@ -445,9 +625,65 @@ func copyFile(src, dst string) error {
 	return os.WriteFile(dst, b, 0600)
 }
 
-// diskCounts opens a COPY of the database with a fresh address manager and
-// returns scope -> (external, internal) key counts of account 0.
-func (e *env) diskCounts(db walletdb.DB) (map[string][2]uint32, error) {
+// addrLoc is where a chained address sits: (scope name, account, branch, index).
+type addrLoc struct {
+	scope   string
+	account uint32
+	branch  uint32
+	index   uint32
+}
+
+func locOf(ma waddrmgr.ManagedAddress) *addrLoc {
+	pk, ok := ma.(waddrmgr.ManagedPubKeyAddress)
+	if !ok {
+		return nil
+	}
+	ks, path, ok := pk.DerivationInfo()
+	if !ok {
+		return nil
+	}
+	l := &addrLoc{account: path.InternalAccount, branch: path.Branch, index: path.Index}
+	for n, s := range scopes {
+		if s == ks {
+			l.scope = n
+		}
+	}
+	return l
+}
+
+// lastOf renders a "last address" answer as (branch, index) if it is a chained
+// address of counter c, (-2, -2) if the manager says there is none yet (key
+// count 0), else (-1, -1).
+func lastOf(ma waddrmgr.ManagedAddress, err error, c ctr) [2]int64 {
+	if err != nil {
+		return [2]int64{-2, -2}
+	}
+	l := locOf(ma)
+	if l == nil || l.scope != c.scope || l.account != c.account {
+		return [2]int64{-1, -1}
+	}
+	return [2]int64{int64(l.branch), int64(l.index)}
+}
+
+// mgrState is what one address manager (the running one, or a fresh one
+// opened on a copy of the file) answers for the observed counters.
+type mgrState struct {
+	counts map[string][2]uint32
+	last   map[string][2][2]int64 // counter -> branch -> (branch, index) of the last address
+	// disk side only
+	known map[string]*addrLoc // probed address -> location, nil = unknown to the database
+	next  map[string][2]string
+	nextI map[string][2]int64
+}
+
+var errRollback = errors.New("harness: roll back")
+
+// diskState opens a COPY of the database with a fresh address manager (what a
+// restart sees) and returns the key counts, the last addresses, where each of
+// the probed addresses is (nil = the database does not know it) and, if
+// withNext, the address it would hand out next on every observed branch
+// (derived inside a transaction that is rolled back).
+func (e *env) diskState(db walletdb.DB, probe []string, withNext bool) (*mgrState, error) {
 	e.seq++
 	cp := filepath.Join(e.dir, fmt.Sprintf("copy%d.db", e.seq))
 	f, err := os.Create(cp)
@@ -460,19 +696,14 @@ func (e *env) diskCounts(db walletdb.DB) (map[string][2]uint32, error) {
 	}
 	f.Close()
 	defer os.Remove(cp)
-	cdb, err := walletdb.Open("bdb", cp, true, time.Minute, true)
+	cdb, err := walletdb.Open("bdb", cp, true, time.Minute, !withNext)
 	if err != nil {
 		return nil, err
 	}
 	defer cdb.Close()
-	out := map[string][2]uint32{}
-	err = walletdb.View(cdb, func(tx walletdb.ReadTx) error {
-		ns := tx.ReadBucket([]byte("waddrmgr"))
-		mgr, err := waddrmgr.Open(ns, pubPass, params)
-		if err != nil {
-			return err
-		}
-		defer mgr.Close()
+	out := &mgrState{counts: map[string][2]uint32{}, last: map[string][2][2]int64{},
+		known: map[string]*addrLoc{}, next: map[string][2]string{}, nextI: map[string][2]int64{}}
+	read := func(ns walletdb.ReadBucket, mgr *waddrmgr.Manager) error {
 		for _, c := range counters {
 			sm, err := mgr.FetchScopedKeyManager(scopes[c.scope])
 			if err != nil {
@@ -482,47 +713,167 @@ func (e *env) diskCounts(db walletdb.DB) (map[string][2]uint32, error) {
 			if err != nil {
 				return err
 			}
-			out[c.String()] = [2]uint32{p.ExternalKeyCount, p.InternalKeyCount}
+			out.counts[c.String()] = [2]uint32{p.ExternalKeyCount, p.InternalKeyCount}
+			le, err := sm.LastExternalAddress(ns, c.account)
+			if err != nil && !waddrmgr.IsError(err, waddrmgr.ErrAddressNotFound) {
+				return err
+			}
+			li, err2 := sm.LastInternalAddress(ns, c.account)
+			if err2 != nil && !waddrmgr.IsError(err2, waddrmgr.ErrAddressNotFound) {
+				return err2
+			}
+			out.last[c.String()] = [2][2]int64{lastOf(le, err, c), lastOf(li, err2, c)}
+		}
+		for _, a := range probe {
+			addr, err := btcutil.DecodeAddress(a, params)
+			if err != nil {
+				return err
+			}
+			ma, err := mgr.Address(ns, addr)
+			if err != nil {
+				out.known[a] = nil
+				continue
+			}
+			if l := locOf(ma); l != nil {
+				out.known[a] = l
+			} else {
+				// known to the database, not a chained address (imported key, script)
+				out.known[a] = &addrLoc{scope: "not-chained"}
+			}
+		}
+		return nil
+	}
+	if !withNext {
+		err = walletdb.View(cdb, func(tx walletdb.ReadTx) error {
+			ns := tx.ReadBucket([]byte("waddrmgr"))
+			mgr, err := waddrmgr.Open(ns, pubPass, params)
+			if err != nil {
+				return err
+			}
+			defer mgr.Close()
+			return read(ns, mgr)
+		})
+		return out, err
+	}
+	err = walletdb.Update(cdb, func(tx walletdb.ReadWriteTx) error {
+		ns := tx.ReadWriteBucket([]byte("waddrmgr"))
+		mgr, err := waddrmgr.Open(ns, pubPass, params)
+		if err != nil {
+			return err
+		}
+		defer mgr.Close()
+		if err := read(ns, mgr); err != nil {
+			return err
+		}
+		for _, c := range counters {
+			sm, err := mgr.FetchScopedKeyManager(scopes[c.scope])
+			if err != nil {
+				return err
+			}
+			var nx [2]string
+			ex, err := sm.NextExternalAddresses(ns, c.account, 1)
+			if err != nil {
+				return fmt.Errorf("restarted manager, next external of %s: %w", c, err)
+			}
+			in, err := sm.NextInternalAddresses(ns, c.account, 1)
+			if err != nil {
+				return fmt.Errorf("restarted manager, next internal of %s: %w", c, err)
+			}
+			nx[0], nx[1] = ex[0].Address().EncodeAddress(), in[0].Address().EncodeAddress()
+			out.next[c.String()] = nx
+			ni := [2]int64{-1, -1}
+			if l := locOf(ex[0]); l != nil {
+				ni[0] = int64(l.index)
+			}
+			if l := locOf(in[0]); l != nil {
+				ni[1] = int64(l.index)
+			}
+			out.nextI[c.String()] = ni
+		}
+		return errRollback
+	})
+	if err == errRollback {
+		err = nil
+	}
+	return out, err
+}
+
+// memState asks the running wallet the same questions.
+func memState(w *wallet.Wallet) (*mgrState, error) {
+	out := &mgrState{counts: map[string][2]uint32{}, last: map[string][2][2]int64{}}
+	for _, c := range counters {
+		p, err := w.AccountProperties(scopes[c.scope], c.account)
+		if err != nil {
+			return nil, err
+		}
+		out.counts[c.String()] = [2]uint32{p.ExternalKeyCount, p.InternalKeyCount}
+	}
+	err := walletdb.View(w.Database(), func(tx walletdb.ReadTx) error {
+		ns := tx.ReadBucket([]byte("waddrmgr"))
+		for _, c := range counters {
+			sm, err := w.Manager.FetchScopedKeyManager(scopes[c.scope])
+			if err != nil {
+				return err
+			}
+			le, err := sm.LastExternalAddress(ns, c.account)
+			if err != nil && !waddrmgr.IsError(err, waddrmgr.ErrAddressNotFound) {
+				return err
+			}
+			li, err2 := sm.LastInternalAddress(ns, c.account)
+			if err2 != nil && !waddrmgr.IsError(err2, waddrmgr.ErrAddressNotFound) {
+				return err2
+			}
+			out.last[c.String()] = [2][2]int64{lastOf(le, err, c), lastOf(li, err2, c)}
 		}
 		return nil
 	})
 	return out, err
 }
 
-func memCounts(w *wallet.Wallet) (map[string][2]uint32, error) {
-	out := map[string][2]uint32{}
-	for _, c := range counters {
-		p, err := w.AccountProperties(scopes[c.scope], c.account)
-		if err != nil {
-			return nil, err
+// cachedAddresses lists the addresses currently in the scoped managers'
+// address caches (the map the commit handler of nextAddresses fills), through
+// the verif-only enumeration of clear-text buffers: one "privKeyCT:<scope>:<address>"
+// entry per cached chained address.
+func cachedAddresses(w *wallet.Wallet) []string {
+	var out []string
+	for _, b := range w.Manager.VerifSecretBuffers() {
+		if strings.HasPrefix(b.Name, "privKeyCT:") {
+			if i := strings.LastIndexByte(b.Name, ':'); i > 0 {
+				out = append(out, b.Name[i+1:])
+			}
 		}
-		out[c.String()] = [2]uint32{p.ExternalKeyCount, p.InternalKeyCount}
 	}
-	return out, nil
+	sort.Strings(out)
+	return out
 }
 
 // ---------------------------------------------------------------- one run
 
-type txState struct{ call int }
+type txState struct {
+	call  int
+	gid   int64
+	stack []string
+}
 
 type run struct {
 	o  *opened
 	sc scenario
 
-	mu        sync.Mutex // the log lock: also held around real commits/rollbacks
-	gidCall   map[int64]int
-	creator   int64    // goroutine id of wallet.txCreator
-	creatorTx *txState // the write transaction currently open in txCreator
-	started   []bool
-	returned  []bool
-	parked    []bool
-	release   []chan struct{}
-	released  []bool
-	gids      []int64
-	results   []callObs
-	notes     []string
-	wg        sync.WaitGroup
-	order     []logItem
+	mu       sync.Mutex // the log lock: also held around real commits/rollbacks (default database mode)
+	gidCall  map[int64]int
+	creator  int64              // goroutine id of the wallet's transaction-creator goroutine (-1: not known yet)
+	openTx   map[int64]*txState // goroutine id -> its open write transaction
+	started  []bool
+	returned []bool
+	parked   []bool
+	release  []chan struct{}
+	released []bool
+	gids     []int64
+	results  []callObs
+	notes    []string
+	wg       sync.WaitGroup
+	order    []logItem
+	before   *mgrState
 }
 
 // logItem is either a harness-level event (st == nil) or a transaction event
@@ -534,35 +885,53 @@ type logItem struct {
 }
 
 func (r *run) hooks() *proxydb.Hooks {
+	// r.mu held
+	ended := func(tx *proxydb.TxInfo, st *txState, committed bool) {
+		if committed {
+			r.order = append(r.order, logItem{ev: "commit", st: st})
+		} else {
+			r.order = append(r.order, logItem{ev: "rollback", st: st})
+		}
+		if st.call >= 0 {
+			r.record(st.call, tx, st, committed)
+		}
+		if r.openTx[st.gid] == st {
+			delete(r.openTx, st.gid)
+		}
+	}
 	return &proxydb.Hooks{
 		OnBegin: func(tx *proxydb.TxInfo) {
 			if !tx.Writable {
 				return
 			}
 			g := goid()
+			stack := repoStack()
 			r.mu.Lock()
-			st := &txState{call: -1}
+			st := &txState{call: -1, gid: g, stack: stack}
 			if c, ok := r.gidCall[g]; ok {
 				st.call = c
-			} else if g == r.creator {
-				r.creatorTx = st
 			}
+			r.openTx[g] = st
 			tx.User = st
 			r.order = append(r.order, logItem{ev: "begin", st: st})
 			r.mu.Unlock()
 		},
 		AroundCommit: func(tx *proxydb.TxInfo, commit func() error) error {
 			st := tx.User.(*txState)
+			if tx.Native {
+				// the backend runs the handlers (and our gate) inside commit:
+				// the commit event is logged by AfterCommit, the first handler
+				err := commit()
+				if err != nil {
+					r.mu.Lock()
+					ended(tx, st, false)
+					r.mu.Unlock()
+				}
+				return err
+			}
 			r.mu.Lock()
 			err := commit()
-			if err == nil {
-				r.order = append(r.order, logItem{ev: "commit", st: st})
-			} else {
-				r.order = append(r.order, logItem{ev: "rollback", st: st})
-			}
-			if st.call >= 0 {
-				r.record(st.call, tx, err == nil)
-			}
+			ended(tx, st, err == nil)
 			r.mu.Unlock()
 			return err
 		},
@@ -570,15 +939,17 @@ func (r *run) hooks() *proxydb.Hooks {
 			st := tx.User.(*txState)
 			r.mu.Lock()
 			err := rollback()
-			r.order = append(r.order, logItem{ev: "rollback", st: st})
-			if st.call >= 0 {
-				r.record(st.call, tx, false)
-			}
+			ended(tx, st, false)
 			r.mu.Unlock()
 			return err
 		},
 		AfterCommit: func(tx *proxydb.TxInfo) {
 			st := tx.User.(*txState)
+			if tx.Native {
+				r.mu.Lock()
+				ended(tx, st, true)
+				r.mu.Unlock()
+			}
 			if st.call < 0 || !r.sc.Calls[st.call].Gate {
 				return
 			}
@@ -605,11 +976,15 @@ func (r *run) hooks() *proxydb.Hooks {
 }
 
 // record notes what the proxy saw of call i's transaction (r.mu held).
-func (r *run) record(i int, tx *proxydb.TxInfo, committed bool) {
+func (r *run) record(i int, tx *proxydb.TxInfo, st *txState, committed bool) {
 	res := &r.results[i]
+	if res.Tx && isRecover(r.sc.Calls[i].API) {
+		r.notes = append(r.notes, fmt.Sprintf("call %d (recovery) opened more than one write transaction", i))
+	}
 	res.N = tx.Callbacks
 	res.Writes = tx.Writes
-	if tx.Callbacks == 0 && tx.Writes > 0 {
+	res.Stack = st.stack
+	if tx.Callbacks == 0 && tx.Writes > 0 && !isRecover(r.sc.Calls[i].API) {
 		// the address requests under test write only when they derive
 		res.N = 1
 		r.notes = append(r.notes, fmt.Sprintf("call %d wrote to the database without registering a commit handler", i))
@@ -619,14 +994,17 @@ func (r *run) record(i int, tx *proxydb.TxInfo, committed bool) {
 }
 
 // ownCreatorTx is called (through the UTXO filter) inside the transaction
-// that wallet.txCreator runs for call i.
+// that the wallet's transaction-creator goroutine runs for call i.
 func (r *run) ownCreatorTx(i int) {
-	if goid() != r.creator {
-		return
-	}
+	g := goid()
 	r.mu.Lock()
-	if r.creatorTx != nil && r.creatorTx.call < 0 {
-		r.creatorTx.call = i
+	if _, mine := r.gidCall[g]; !mine {
+		if st := r.openTx[g]; st != nil && st.call < 0 {
+			st.call = i
+		}
+		if r.creator < 0 {
+			r.creator = g
+		}
 	}
 	r.mu.Unlock()
 }
@@ -639,13 +1017,13 @@ func txOutputs() []*wire.TxOut {
 func (r *run) invoke(i int, c callSpec) callObs {
 	w := r.o.w
 	sc := scopes[c.Scope]
-	res := callObs{API: c.API, Site: siteOf(c.API), Scope: c.Scope, Account: counterOf(c).account,
-		Branch: branchOf(c.API), Index: -1}
+	res := callObs{API: c.API, Scope: c.Scope, Account: counterOf(c).account,
+		Branch: branchOf(c.API), Index: -1, Found: -1, Addrs: []string{}, Indices: []int64{}, Stack: []string{}}
 	if c.Account > 1 || (c.Account == 1 && c.Scope != "84") {
 		res.Err = "harness: account 1 exists in scope 84 only"
 		return res
 	}
-	var addr btcutil.Address
+	var addrs []btcutil.Address
 	var err error
 	filter := wallet.WithUtxoFilter(func(wtxmgr.Credit) bool {
 		if i >= 0 {
@@ -653,24 +1031,34 @@ func (r *run) invoke(i int, c callSpec) callObs {
 		}
 		return true
 	})
+	one := func(a btcutil.Address, e error) {
+		err = e
+		if e == nil && a != nil {
+			addrs = []btcutil.Address{a}
+		}
+	}
 	changeAddr := func(tx *wire.MsgTx, idx int) (btcutil.Address, error) {
 		if idx < 0 {
 			return nil, nil
 		}
-		_, addrs, _, err := txscript.ExtractPkScriptAddrs(tx.TxOut[idx].PkScript, params)
-		if err != nil || len(addrs) != 1 {
+		_, as, _, err := txscript.ExtractPkScriptAddrs(tx.TxOut[idx].PkScript, params)
+		if err != nil || len(as) != 1 {
 			return nil, fmt.Errorf("change script not understood: %v", err)
 		}
-		return addrs[0], nil
+		return as[0], nil
+	}
+	n := c.N
+	if n == 0 {
+		n = 1
 	}
 	k84 := waddrmgr.KeyScopeBIP0084
 	switch c.API {
 	case "NewAddress":
-		addr, err = w.NewAddress(c.Account, sc)
+		one(w.NewAddress(c.Account, sc))
 	case "NewChangeAddress":
-		addr, err = w.NewChangeAddress(c.Account, sc)
+		one(w.NewChangeAddress(c.Account, sc))
 	case "CurrentAddress":
-		addr, err = w.CurrentAddress(c.Account, sc)
+		one(w.CurrentAddress(c.Account, sc))
 	case "CreateSimpleTx", "CreateSimpleTxDry", "SpendImported", "SpendImportedDry":
 		// coins are selected among the outputs of the spending account in
 		// scope 84; a spend from the imported account takes the coin of the
@@ -683,7 +1071,7 @@ func (r *run) invoke(i int, c callSpec) callObs {
 			strings.HasSuffix(c.API, "Dry"), wallet.WithCustomChangeScope(&sc), filter)
 		err = e2
 		if err == nil {
-			addr, err = changeAddr(atx.Tx, atx.ChangeIndex)
+			one(changeAddr(atx.Tx, atx.ChangeIndex))
 		}
 	case "FundPsbt", "FundPsbtImported":
 		from, coin := c.Account, uint32(fundOutAcct0)
@@ -706,8 +1094,67 @@ func (r *run) invoke(i int, c callSpec) callObs {
 		idx, e2 := w.FundPsbt(pkt, &k84, 1, from, 2000, wallet.CoinSelectionLargest, wallet.WithCustomChangeScope(&sc))
 		err = e2
 		if err == nil {
-			addr, err = changeAddr(pkt.UnsignedTx, int(idx))
+			one(changeAddr(pkt.UnsignedTx, int(idx)))
 		}
+	case "ImportAccountDryRun":
+		at := waddrmgr.WitnessPubKey
+		_, ex, in, e2 := w.ImportAccountDryRun(fmt.Sprintf("dry%d", i), dryXpub, 0, &at, n)
+		err = e2
+		for _, a := range append(ex, in...) {
+			addrs = append(addrs, a.Address())
+		}
+	case "RawNextExternal", "RawNextInternal":
+		// what an issuing function outside package wallet does: the scoped
+		// manager inside its own Update, no wallet-level mutex
+		err = walletdb.Update(w.Database(), func(tx walletdb.ReadWriteTx) error {
+			sm, err := w.Manager.FetchScopedKeyManager(sc)
+			if err != nil {
+				return err
+			}
+			ns := tx.ReadWriteBucket([]byte("waddrmgr"))
+			var mas []waddrmgr.ManagedAddress
+			if c.API == "RawNextExternal" {
+				mas, err = sm.NextExternalAddresses(ns, c.Account, n)
+			} else {
+				mas, err = sm.NextInternalAddresses(ns, c.Account, n)
+			}
+			for _, ma := range mas {
+				addrs = append(addrs, ma.Address())
+			}
+			return err
+		})
+	case "ReadAccount":
+		for k := 0; k < 3 && err == nil; k++ {
+			_, err = w.AccountProperties(sc, c.Account)
+			if err == nil {
+				err = walletdb.View(w.Database(), func(tx walletdb.ReadTx) error {
+					sm, err := w.Manager.FetchScopedKeyManager(sc)
+					if err != nil {
+						return err
+					}
+					ns := tx.ReadBucket([]byte("waddrmgr"))
+					if _, err := sm.LastExternalAddress(ns, c.Account); err != nil && !waddrmgr.IsError(err, waddrmgr.ErrAddressNotFound) {
+						return err
+					}
+					if _, err := sm.LastInternalAddress(ns, c.Account); err != nil && !waddrmgr.IsError(err, waddrmgr.ErrAddressNotFound) {
+						return err
+					}
+					return nil
+				})
+			}
+			runtime.Gosched()
+		}
+	case "RecoverExternal", "RecoverInternal":
+		if r.before == nil {
+			err = errors.New("harness: recovery outside the concurrent phase")
+			break
+		}
+		br := branchOf(c.API)
+		found := r.before.counts[ctr{c.Scope, 0}.String()][br] + c.Ahead
+		res.Found = int64(found)
+		start := w.Manager.SyncedTo().Height + 1
+		rc := &recChain{start: start, best: start + 1, scope: sc, internal: br == waddrmgr.InternalBranch, found: found}
+		err = w.VerifRecovery(rc, &waddrmgr.BlockStamp{Height: start, Hash: rc.hash(start), Timestamp: time.Unix(1700000100, 0)})
 	default:
 		err = fmt.Errorf("unknown api %q", c.API)
 	}
@@ -715,43 +1162,33 @@ func (r *run) invoke(i int, c callSpec) callObs {
 		res.Err = err.Error()
 		return res
 	}
-	if addr != nil {
-		res.Addr = addr.EncodeAddress()
+	for _, a := range addrs {
+		res.Addrs = append(res.Addrs, a.EncodeAddress())
+	}
+	if len(res.Addrs) > 0 {
+		res.Addr = res.Addrs[0]
 	}
 	return res
 }
 
-// resolve fills scope/branch/index of the address a call obtained.
-func (r *run) resolve(res *callObs) {
-	if res.Addr == "" {
-		return
-	}
-	a, err := btcutil.DecodeAddress(res.Addr, params)
-	if err != nil {
-		r.notes = append(r.notes, "decode "+res.Addr+": "+err.Error())
-		return
-	}
-	ma, err := r.o.w.AddressInfo(a)
-	if err != nil {
-		// dry runs: the address was rolled back
-		return
-	}
-	pk, ok := ma.(waddrmgr.ManagedPubKeyAddress)
-	if !ok {
-		return
-	}
-	ks, path, ok := pk.DerivationInfo()
-	if !ok {
-		return
-	}
-	for n, s := range scopes {
-		if s == ks {
-			res.Scope = n
+// resolve fills scope/account/branch/index of the addresses a call obtained,
+// as the RESTARTED manager (known: the database's view) places them.
+func (r *run) resolve(res *callObs, known map[string]*addrLoc) {
+	res.Indices = []int64{}
+	for k, a := range res.Addrs {
+		l := known[a]
+		if k == 0 && l != nil {
+			// the branch the address really is on (a request can obtain an
+			// address of another branch than its API draws from only if the
+			// code is wrong; the comparison with the model then fails)
+			res.Scope, res.Account, res.Branch, res.Index = l.scope, l.account, l.branch, int64(l.index)
+		}
+		if l != nil && l.scope == res.Scope && l.account == res.Account && l.branch == res.Branch {
+			res.Indices = append(res.Indices, int64(l.index))
+		} else {
+			res.Indices = append(res.Indices, -1)
 		}
 	}
-	res.Account = path.InternalAccount
-	res.Branch = path.Branch
-	res.Index = int64(path.Index)
 }
 
 func (r *run) startCall(i int) {
@@ -774,6 +1211,9 @@ func (r *run) startCall(i int) {
 		// keep what the hooks recorded
 		res.N, res.Commits, res.Tx, res.Blocked = r.results[i].N, r.results[i].Commits, r.results[i].Tx, r.results[i].Blocked
 		res.Writes = r.results[i].Writes
+		if r.results[i].Stack != nil {
+			res.Stack = r.results[i].Stack
+		}
 		r.results[i] = res
 		r.returned[i] = true
 		r.order = append(r.order, logItem{ev: "return", call: i})
@@ -800,12 +1240,13 @@ func (r *run) settle() {
 				if !r.parked[i] {
 					waiting = append(waiting, i)
 				}
-				if siteOf(r.sc.Calls[i].API) == "txToOutputs" {
+				if viaCreator(r.sc.Calls[i].API) {
 					needCreator = true
 				}
 			}
 		}
 		gids := append([]int64{}, r.gids...)
+		creator := r.creator
 		r.mu.Unlock()
 		busy := false
 		if len(waiting) > 0 || needCreator {
@@ -815,7 +1256,7 @@ func (r *run) settle() {
 					busy = true
 				}
 			}
-			if needCreator && !blockedState(st[r.creator]) {
+			if needCreator && !blockedState(st[creator]) {
 				busy = true
 			}
 		}
@@ -878,20 +1319,36 @@ func (e *env) runScenario(sc scenario) (obs, error) {
 	for i := range r.release {
 		r.release[i] = make(chan struct{})
 	}
+	r.openTx = map[int64]*txState{}
+	needCreator := false
+	for _, c := range append(append([]callSpec{}, sc.Calls...), sc.Pre...) {
+		needCreator = needCreator || viaCreator(c.API)
+	}
+	cached := map[string]bool{}
+	// the goroutine that serves CreateSimpleTx: found by the name of its
+	// function if it still has that name, else by a dry run whose UTXO filter
+	// reports the goroutine it runs in (that also loads account 84/0)
 	_, r.creator = goStates("wallet.(*Wallet).txCreator")
-	if r.creator < 0 {
-		return out, errors.New("wallet.txCreator goroutine not found")
+	if r.creator < 0 && needCreator {
+		var g int64 = -1
+		k84, s84 := waddrmgr.KeyScopeBIP0084, waddrmgr.KeyScopeBIP0084
+		_, err := o.w.CreateSimpleTx(&k84, 0, txOutputs(), 1, 2000, wallet.CoinSelectionLargest, true,
+			wallet.WithCustomChangeScope(&s84), wallet.WithUtxoFilter(func(wtxmgr.Credit) bool { g = goid(); return true }))
+		if err != nil || g < 0 {
+			return out, fmt.Errorf("the goroutine serving CreateSimpleTx was not found (%v)", err)
+		}
+		r.creator = g
+		cached["84/0"] = true
 	}
 
 	// warm-up, sequential, no hooks
-	cached := map[string]bool{}
 	for _, c := range sc.Pre {
 		res := r.invoke(-1, c)
 		if res.Err != "" {
 			return out, fmt.Errorf("warm-up %s failed: %s", c.API, res.Err)
 		}
 		cached[counterOf(c).String()] = true
-		if siteOf(c.API) == "txToOutputs" || siteOf(c.API) == "FundPsbt" {
+		if viaCreator(c.API) || isFund(c.API) {
 			cached["84/0"] = true
 		}
 	}
@@ -909,17 +1366,20 @@ func (e *env) runScenario(sc scenario) (obs, error) {
 		cached["84/0"] = true
 	}
 	if sc.Warm {
-		if _, err := memCounts(o.w); err != nil {
+		if _, err := memState(o.w); err != nil {
 			return out, err
 		}
 		for _, c := range counters {
 			cached[c.String()] = true
 		}
 	}
-	before, err := e.diskCounts(o.proxy)
+	before, err := e.diskState(o.proxy, nil, false)
 	if err != nil {
 		return out, err
 	}
+	r.before = before
+	out.Native = sc.Native
+	o.proxy.SetNative(sc.Native)
 
 	// concurrent phase
 	o.proxy.SetHooks(r.hooks())
@@ -1015,10 +1475,71 @@ func (e *env) runScenario(sc scenario) (obs, error) {
 		return out, errStuck
 	}
 	o.proxy.SetHooks(nil)
+	o.proxy.SetNative(false)
+
+	// what does the wallet hand out next (sequential requests)
+	out.Post = []callObs{}
+	for _, c := range sc.Post {
+		if c.API != "NewAddress" && c.API != "NewChangeAddress" {
+			return out, fmt.Errorf("post request %s: only NewAddress / NewChangeAddress", c.API)
+		}
+		var stack []string
+		me := goid()
+		o.proxy.SetHooks(&proxydb.Hooks{OnBegin: func(tx *proxydb.TxInfo) {
+			if tx.Writable && goid() == me && stack == nil {
+				stack = repoStack()
+			}
+		}})
+		res := r.invoke(-1, c)
+		o.proxy.SetHooks(nil)
+		res.Commits, res.Tx = res.Err == "", true
+		if res.Commits {
+			res.N, res.Derived = 1, 1
+		}
+		if stack != nil {
+			res.Stack = stack
+		}
+		out.Post = append(out.Post, res)
+	}
 
 	// observations
+	cache := cachedAddresses(o.w)
 	for i := range r.results {
-		r.resolve(&r.results[i])
+		res := &r.results[i]
+		res.Derived = res.N
+		if isRaw(res.API) && res.N > 0 {
+			res.Derived = len(res.Addrs)
+			if sc.Calls[i].N > 0 {
+				res.Derived = int(sc.Calls[i].N)
+			}
+		}
+		if res.Stack == nil {
+			res.Stack = []string{}
+		}
+		res.Site = "harness." + res.API
+		if len(res.Stack) > 0 {
+			res.Site = res.Stack[0]
+		}
+	}
+	for i := range out.Post {
+		out.Post[i].Site = "post." + out.Post[i].API
+		if len(out.Post[i].Stack) > 0 {
+			out.Post[i].Site = out.Post[i].Stack[0]
+		}
+	}
+	probe := append([]string{}, cache...)
+	for _, c := range append(append([]callObs{}, r.results...), out.Post...) {
+		probe = append(probe, c.Addrs...)
+	}
+	after, err := e.diskState(o.proxy, probe, true)
+	if err != nil {
+		return out, err
+	}
+	for i := range r.results {
+		r.resolve(&r.results[i], after.known)
+	}
+	for i := range out.Post {
+		r.resolve(&out.Post[i], after.known)
 	}
 	out.Calls = r.results
 	for _, it := range r.order {
@@ -1026,30 +1547,57 @@ func (e *env) runScenario(sc scenario) (obs, error) {
 		if it.st != nil {
 			c = it.st.call
 			if c < 0 {
-				r.notes = append(r.notes, "write transaction not attributed to a call: "+it.ev)
+				r.notes = append(r.notes, "write transaction not attributed to a call: "+it.ev+" "+strings.Join(it.st.stack, "<"))
 			}
 		}
 		out.Events = append(out.Events, event{Ev: it.ev, Call: c})
 	}
-	after, err := e.diskCounts(o.proxy)
+	mem, err := memState(o.w)
 	if err != nil {
 		return out, err
 	}
-	mem, err := memCounts(o.w)
-	if err != nil {
-		return out, err
+	out.CachePhantoms = []string{}
+	for _, a := range cache {
+		if after.known[a] == nil {
+			out.CachePhantoms = append(out.CachePhantoms, a)
+		}
 	}
 	for _, ct := range counters {
 		k := ct.String()
 		for br := uint32(0); br < 2; br++ {
-			b := branchObs{Scope: ct.scope, Account: ct.account, Branch: br, N0: before[k][br], Cached: cached[k],
-				MemAfter: mem[k][br], DiskAfter: after[k][br], Issued: []int64{}}
-			for _, c := range r.results {
-				if c.Err == "" && c.Commits && c.N > 0 && c.Index >= 0 && c.Scope == ct.scope &&
-					c.Account == ct.account && c.Branch == br {
-					b.Issued = append(b.Issued, c.Index)
+			b := branchObs{Scope: ct.scope, Account: ct.account, Branch: br, N0: before.counts[k][br], Cached: cached[k],
+				MemAfter: mem.counts[k][br], DiskAfter: after.counts[k][br], Issued: []int64{}, Extended: []int64{},
+				Cache: []int64{}}
+			// (assigned through locals: with go1.23.5 -race the composite literal
+			// `LastMem: mem.last[k][br]` of a map[string][2][2]int64 yields garbage)
+			lm, ld, nx, ni := mem.last[k], after.last[k], after.next[k], after.nextI[k]
+			b.LastMem, b.LastDisk = lm[br], ld[br]
+			b.RestartNext, b.RestartNextIndex = nx[br], ni[br]
+			for _, c := range append(append([]callObs{}, r.results...), out.Post...) {
+				if c.Err != "" || !c.Commits {
+					continue
+				}
+				if isRecover(c.API) {
+					if c.Scope == ct.scope && ct.account == 0 && c.Branch == br && c.Found >= int64(b.N0) {
+						b.Extended = append(b.Extended, c.Found)
+					}
+					continue
+				}
+				if c.N > 0 && c.Scope == ct.scope && c.Account == ct.account && c.Branch == br {
+					for _, x := range c.Indices {
+						if x >= 0 {
+							b.Issued = append(b.Issued, x)
+						}
+					}
 				}
 			}
+			for _, a := range cache {
+				if l := after.known[a]; l != nil && l.scope == ct.scope && l.account == ct.account &&
+					l.branch == br && l.index >= b.N0 {
+					b.Cache = append(b.Cache, int64(l.index))
+				}
+			}
+			sort.Slice(b.Cache, func(i, j int) bool { return b.Cache[i] < b.Cache[j] })
 			out.Branches = append(out.Branches, b)
 		}
 	}
@@ -1057,29 +1605,48 @@ func (e *env) runScenario(sc scenario) (obs, error) {
 	if out.Notes == nil {
 		out.Notes = []string{}
 	}
+	out.Control = []string{}
 	return out, nil
 }
 
 // oracle states the property on what the implementation did.
 func oracle(o obs) []string {
 	bad := map[string]bool{}
-	seen := map[string]int{}
-	for i, c := range o.Calls {
-		// only requests that derived something and committed issue an
-		// address (CurrentAddress answering with the existing unused address
+	seen := map[string]bool{}
+	all := append(append([]callObs{}, o.Calls...), o.Post...)
+	for _, c := range all {
+		// only requests that derived something and committed issue
+		// addresses (CurrentAddress answering with the existing unused address
 		// and dry runs do not)
-		if c.Err != "" || !c.Commits || c.N == 0 || c.Addr == "" {
+		if c.Err != "" || !c.Commits || c.N == 0 || isRecover(c.API) {
 			continue
 		}
-		if _, dup := seen[c.Addr]; dup {
-			bad["duplicate_address"] = true
+		for _, a := range c.Addrs {
+			if seen[a] {
+				bad["duplicate_address"] = true
+			}
+			seen[a] = true
 		}
-		seen[c.Addr] = i
+	}
+	// position of the events, to tell what began after a recovery committed
+	pos := map[[2]interface{}]int{}
+	for k, e := range o.Events {
+		key := [2]interface{}{e.Ev, e.Call}
+		if _, ok := pos[key]; !ok {
+			pos[key] = k
+		}
 	}
 	for _, b := range o.Branches {
+		// indices consumed on the branch: handed out to a call, or derived by
+		// a recovery that extended the branch through a found index
 		set := map[int64]bool{}
 		for _, x := range b.Issued {
 			set[x] = true
+		}
+		for _, f := range b.Extended {
+			for x := int64(b.N0); x <= f; x++ {
+				set[x] = true
+			}
 		}
 		for k := 0; k < len(set); k++ {
 			if !set[int64(b.N0)+int64(k)] {
@@ -1089,10 +1656,54 @@ func oracle(o obs) []string {
 		if b.MemAfter != b.DiskAfter {
 			bad["memory_disk_disagree"] = true
 		}
-		// every index the database says was handed out went to a call
+		// every index the database says is consumed went to a call or a recovery, and vice versa
 		if int64(b.DiskAfter) != int64(b.N0)+int64(len(set)) {
 			bad["index_gap"] = true
 		}
+		// the last address of the branch: memory and a restarted manager agree
+		if b.LastMem != b.LastDisk {
+			bad["last_address_disagree"] = true
+		}
+		// after a restart the next address is none of those handed out
+		if b.RestartNext != "" && seen[b.RestartNext] {
+			bad["restart_reissues_address"] = true
+		}
+	}
+	// a request that began after a recovery had committed must not obtain an
+	// index the recovery extended the branch through
+	for ri, rc := range o.Calls {
+		if !isRecover(rc.API) || rc.Err != "" || !rc.Commits {
+			continue
+		}
+		rp, ok := pos[[2]interface{}{"commit", ri}]
+		if !ok {
+			continue
+		}
+		later := func(c callObs) bool {
+			if c.Err != "" || !c.Commits || c.N == 0 || isRecover(c.API) ||
+				c.Scope != rc.Scope || c.Account != 0 || c.Branch != rc.Branch {
+				return false
+			}
+			for _, x := range c.Indices {
+				if x >= 0 && x <= rc.Found {
+					return true
+				}
+			}
+			return false
+		}
+		for ci, c := range o.Calls {
+			if bp, ok := pos[[2]interface{}{"begin", ci}]; ok && bp > rp && later(c) {
+				bad["recovered_address_reissued"] = true
+			}
+		}
+		for _, c := range o.Post {
+			if later(c) {
+				bad["recovered_address_reissued"] = true
+			}
+		}
+	}
+	if len(o.CachePhantoms) > 0 {
+		bad["cached_address_unknown_to_database"] = true
 	}
 	var out []string
 	for k := range bad {
@@ -1107,11 +1718,37 @@ func oracle(o obs) []string {
 var apis = []string{"NewAddress", "NewChangeAddress", "CurrentAddress", "CreateSimpleTx", "CreateSimpleTxDry", "FundPsbt"}
 
 // all request kinds of the random scripts: the above plus the spends whose
-// inputs belong to the imported account (change lands on account 0)
-var allAPIs = append(append([]string{}, apis...), "SpendImported", "SpendImportedDry", "FundPsbtImported")
+// inputs belong to the imported account (change lands on account 0) and the
+// dry-run account import
+var allAPIs = append(append([]string{}, apis...), "SpendImported", "SpendImportedDry", "FundPsbtImported", "ImportAccountDryRun")
+
+func hasRaw(sc scenario) bool {
+	for _, c := range sc.Calls {
+		if isRaw(c.API) {
+			return true
+		}
+	}
+	return false
+}
 
 func tagsOf(sc scenario, o obs) []string {
 	t := map[string]bool{"kind_" + sc.Kind: true, fmt.Sprintf("calls_%d", len(sc.Calls)): true}
+	if sc.Native {
+		t["db_native_commit_order"] = true
+	} else {
+		t["db_proxy_runs_handlers"] = true
+	}
+	if len(sc.Post) > 0 {
+		t["post_requests"] = true
+	}
+	if hasRaw(sc) {
+		if sc.StandIn != "" {
+			t["stand_in_for_source_site"] = true
+		} else {
+			t["negative_control"] = true
+		}
+	}
+	counters := map[string]bool{}
 	for _, c := range sc.Calls {
 		t["api_"+c.API] = true
 		if isImportedSpend(c.API) {
@@ -1123,6 +1760,16 @@ func tagsOf(sc scenario, o obs) []string {
 		if c.Gate {
 			t["gated"] = true
 		}
+		if c.N > 1 {
+			t["request_deriving_2plus"] = true
+		}
+		if isRecover(c.API) {
+			t["recovery"] = true
+		}
+		counters[fmt.Sprintf("%s/%d", counterOf(c), branchOf(c.API))] = true
+	}
+	if len(counters) >= 3 {
+		t["counters_3plus"] = true
 	}
 	for _, c := range o.Calls {
 		if c.Blocked {
@@ -1134,8 +1781,11 @@ func tagsOf(sc scenario, o obs) []string {
 		if c.Tx && !c.Commits {
 			t["rolled_back"] = true
 		}
-		if c.Tx && c.Commits && c.N == 0 {
+		if c.Tx && c.Commits && c.N == 0 && !isRecover(c.API) {
 			t["committed_without_derivation"] = true
+		}
+		if c.Tx && c.Commits && c.Derived > 1 {
+			t["committed_deriving_2plus"] = true
 		}
 	}
 	for _, b := range o.Branches {
@@ -1144,6 +1794,9 @@ func tagsOf(sc scenario, o obs) []string {
 		}
 		if !b.Cached && len(b.Issued) > 0 {
 			t["uncached_account"] = true
+		}
+		if len(b.Extended) > 0 {
+			t["branch_extended_by_recovery"] = true
 		}
 	}
 	if sc.MarkUsed {
@@ -1173,6 +1826,125 @@ func windowScenario(a, b callSpec, markUsed bool, pre int) scenario {
 	return sc
 }
 
+func postFor(branch uint32, k int) []callSpec {
+	api := "NewAddress"
+	if branch == waddrmgr.InternalBranch {
+		api = "NewChangeAddress"
+	}
+	var out []callSpec
+	for i := 0; i < k; i++ {
+		out = append(out, callSpec{API: api, Scope: "84"})
+	}
+	return out
+}
+
+// systematicExtra: the scenarios added in review round 3.
+func systematicExtra() []scenario {
+	var out []scenario
+	k := 0
+	add := func(sc scenario, kind string) {
+		if kind != "" {
+			sc.Kind = kind
+		}
+		sc.Warm = k%2 == 0
+		k++
+		out = append(out, sc)
+	}
+	c := func(api string) callSpec { return callSpec{API: api, Scope: "84"} }
+	// (a) recovery: a request parked between its commit and its handlers while
+	// recovery extends the same branch; the reverse order; then what the
+	// wallet hands out next
+	type pr struct{ req, rec string }
+	for _, p := range []pr{{"NewAddress", "RecoverExternal"}, {"CurrentAddress", "RecoverExternal"},
+		{"NewChangeAddress", "RecoverInternal"}, {"CreateSimpleTx", "RecoverInternal"}, {"FundPsbt", "RecoverInternal"},
+		{"SpendImported", "RecoverInternal"}} {
+		for _, native := range []bool{false, true} {
+			rec := c(p.rec)
+			rec.Ahead = uint32(2 + k%3)
+			sc := windowScenario(c(p.req), rec, p.req == "CurrentAddress", k%3)
+			sc.Native = native
+			sc.Post = postFor(branchOf(p.rec), 2)
+			add(sc, "recovery")
+		}
+		// recovery first (parked after its commit), the request in its window
+		rec := c(p.rec)
+		rec.Ahead = uint32(1 + k%3)
+		sc := windowScenario(rec, c(p.req), p.req == "CurrentAddress", k%3)
+		sc.Post = postFor(branchOf(p.rec), 1)
+		add(sc, "recovery")
+	}
+	// recovery that finds nothing new (found index below the key count) next to a request
+	{
+		rec := c("RecoverExternal")
+		sc := windowScenario(c("NewAddress"), rec, false, 2)
+		sc.Calls[1].Ahead = 0
+		sc.Post = postFor(0, 1)
+		add(sc, "recovery")
+	}
+	// (b) negative controls: an issuer that does not take the wallet's address
+	// mutex (several addresses per transaction) against the wallet's requests
+	for _, p := range [][2]string{{"RawNextExternal", "NewAddress"}, {"NewAddress", "RawNextExternal"},
+		{"RawNextInternal", "NewChangeAddress"}, {"FundPsbt", "RawNextInternal"}, {"RawNextInternal", "CreateSimpleTx"},
+		{"RawNextExternal", "RawNextExternal"}} {
+		for _, native := range []bool{false, true} {
+			a, b := c(p[0]), c(p[1])
+			if isRaw(a.API) {
+				a.N = uint32(2 + k%2)
+			}
+			if isRaw(b.API) {
+				b.N = uint32(1 + k%3)
+			}
+			sc := windowScenario(a, b, false, k%3)
+			sc.Native = native
+			sc.Post = postFor(branchOf(p[0]), 1)
+			add(sc, "control")
+		}
+	}
+	// (c) the dry-run account import (n addresses per branch of an account that
+	// never exists outside its rolled-back transaction)
+	for _, req := range []string{"NewAddress", "NewChangeAddress", "FundPsbt", "CreateSimpleTx"} {
+		imp := c("ImportAccountDryRun")
+		imp.N = uint32(1 + k%4)
+		sc := windowScenario(c(req), imp, false, k%3)
+		sc.Native = k%2 == 1
+		add(sc, "")
+		sc = windowScenario(imp, c(req), false, k%3)
+		add(sc, "")
+	}
+	// (d) the real commit ordering for the window placements of every API
+	for _, a := range []string{"NewAddress", "NewChangeAddress", "CurrentAddress", "CreateSimpleTx", "FundPsbt", "SpendImported", "FundPsbtImported"} {
+		for _, b := range []string{"NewAddress", "NewChangeAddress", "FundPsbt"} {
+			sc := windowScenario(c(a), c(b), a == "CurrentAddress", k%3)
+			sc.Native = true
+			add(sc, "")
+		}
+	}
+	// (e) everything interleaved: both branches, two accounts, three scopes,
+	// all request kinds, one parked after the other
+	mixed := []callSpec{c("NewAddress"), c("NewChangeAddress"), c("CurrentAddress"), c("FundPsbt"),
+		{API: "ImportAccountDryRun", Scope: "84", N: 3}, {API: "NewAddress", Scope: "84", Account: 1},
+		{API: "NewAddress", Scope: "86"}, {API: "NewChangeAddress", Scope: "49"}, c("CreateSimpleTx"),
+		{API: "NewChangeAddress", Scope: "84", Account: 1}, c("SpendImported"), {API: "FundPsbt", Scope: "86"}}
+	for v := 0; v < 4; v++ {
+		sc := scenario{Kind: "chain", Native: v%2 == 1, MarkUsed: v >= 2, Pre: []callSpec{}}
+		n := len(mixed)
+		for i := 0; i < n; i++ {
+			cs := mixed[(i*(2*v+1)+v)%n]
+			cs.Gate = true
+			sc.Calls = append(sc.Calls, cs)
+		}
+		for i := 0; i < n; i++ {
+			sc.Script = append(sc.Script, stepSpec{"start", i})
+		}
+		for i := 0; i < n; i++ {
+			sc.Script = append(sc.Script, stepSpec{"release", (i*5 + v) % n})
+		}
+		sc.Post = append(postFor(0, 1), postFor(1, 1)...)
+		add(sc, "")
+	}
+	return out
+}
+
 func randomScenario(r *gen.R) scenario {
 	sc := scenario{Pre: []callSpec{}}
 	n := r.Range(2, 8)
@@ -1186,15 +1958,19 @@ func randomScenario(r *gen.R) scenario {
 	}
 	sc.MarkUsed = r.Chance(1, 4)
 	sc.Warm = r.Chance(1, 3)
+	sc.Native = r.Chance(2, 5)
 	creators := 0
 	for i := 0; i < n; i++ {
-		c := callSpec{API: allAPIs[r.Pick(5, 5, 3, 2, 2, 2, 2, 1, 1)], Scope: []string{"84", "86", "49"}[r.Pick(6, 2, 1)]}
-		if c.Scope == "84" && !isImportedSpend(c.API) && r.Chance(1, 5) {
+		c := callSpec{API: allAPIs[r.Pick(5, 5, 3, 2, 2, 2, 2, 1, 1, 1)], Scope: []string{"84", "86", "49"}[r.Pick(6, 2, 1)]}
+		if c.Scope == "84" && !isImportedSpend(c.API) && c.API != "ImportAccountDryRun" && r.Chance(1, 5) {
 			c.Account = 1
 		}
-		if siteOf(c.API) == "txToOutputs" {
-			// wallet.txCreator serves one request at a time; more than one
-			// in flight cannot be told apart at Begin, keep it to two
+		if c.API == "ImportAccountDryRun" {
+			c.N = uint32(r.Range(1, 4))
+		}
+		if viaCreator(c.API) {
+			// the wallet serves CreateSimpleTx requests one at a time; more
+			// than one in flight cannot be told apart at Begin, keep it to two
 			if creators >= 2 {
 				c.API = "NewChangeAddress"
 			}
@@ -1207,6 +1983,24 @@ func randomScenario(r *gen.R) scenario {
 			c.Gate = r.Chance(2, 3)
 		}
 		sc.Calls = append(sc.Calls, c)
+	}
+	if sc.Kind == "stress" {
+		for k := r.Range(1, 4); k > 0; k-- {
+			sc.Calls = append(sc.Calls, callSpec{API: "ReadAccount", Scope: []string{"84", "86", "49"}[r.Pick(6, 2, 1)]})
+			n++
+		}
+	}
+	if sc.Kind != "stress" && r.Chance(1, 6) {
+		// one recovery among the scripted requests (never in an unscripted
+		// run: it takes no mutex, the observed event order would not determine
+		// what it read)
+		rec := callSpec{API: []string{"RecoverExternal", "RecoverInternal"}[r.Intn(2)], Scope: []string{"84", "86", "49"}[r.Pick(6, 2, 1)],
+			Ahead: uint32(r.Range(0, 4)), Gate: r.Chance(1, 2)}
+		sc.Calls = append(sc.Calls, rec)
+		n++
+	}
+	for i := r.Pick(3, 2, 1); i > 0; i-- {
+		sc.Post = append(sc.Post, callSpec{API: []string{"NewAddress", "NewChangeAddress"}[r.Intn(2)], Scope: []string{"84", "86", "49"}[r.Pick(6, 2, 1)]})
 	}
 	switch sc.Kind {
 	case "stress":
@@ -1222,14 +2016,12 @@ func randomScenario(r *gen.R) scenario {
 		}
 	default:
 		// random interleaving of starts and releases (release after start)
-		started := []int{}
 		order := r.Perm(n)
 		pendingRel := []int{}
 		for len(order) > 0 || len(pendingRel) > 0 {
 			if len(order) > 0 && (len(pendingRel) == 0 || r.Chance(3, 5)) {
 				i := order[0]
 				order = order[1:]
-				started = append(started, i)
 				sc.Script = append(sc.Script, stepSpec{"start", i})
 				if sc.Calls[i].Gate {
 					pendingRel = append(pendingRel, i)
@@ -1244,11 +2036,342 @@ func randomScenario(r *gen.R) scenario {
 	return sc
 }
 
+type standIn struct {
+	Site   string `json:"site"`   // the issuing site found in the source that the harness cannot call by name
+	Branch string `json:"branch"` // "external" | "internal" | "both"
+}
+
+// calibration: which function of the repository opens the write transaction
+// of each request kind (as the running code reports it: nothing here or in the
+// table extractor knows those functions by name), which branch it draws from
+// and whether the wallet's transaction-creator goroutine serves it.
+type calibEntry struct {
+	Stack      []string `json:"stack"`
+	Branch     string   `json:"branch"` // "E" | "I" | "" (dry-run import: an account of its own)
+	ViaCreator bool     `json:"via_creator"`
+	Commits    bool     `json:"commits"`
+	Err        string   `json:"err,omitempty"`
+}
+
+func runCalibration(out *core.Emitter) error {
+	waddrmgr.SetSecretKeyGen(fastKeyGen)
+	dir, err := os.MkdirTemp("", "vh-c09-cal-")
+	if err != nil {
+		return err
+	}
+	defer os.RemoveAll(dir)
+	e := &env{dir: dir}
+	if err := e.makeTemplate(); err != nil {
+		return fmt.Errorf("template wallet: %w", err)
+	}
+	res := map[string]calibEntry{}
+	for _, api := range append(append([]string{}, allAPIs...), "RecoverExternal", "RecoverInternal") {
+		sc := scenario{Kind: "calibrate", Pre: []callSpec{}, MarkUsed: api == "CurrentAddress",
+			Calls: []callSpec{{API: api, Scope: "84", Ahead: 1, N: 1}}, Script: []stepSpec{{"start", 0}}}
+		o, err := e.runScenario(sc)
+		if err != nil {
+			return fmt.Errorf("calibration of %s: %w", api, err)
+		}
+		c := o.Calls[0]
+		ent := calibEntry{Stack: c.Stack, ViaCreator: viaCreator(api), Commits: c.Commits, Err: c.Err}
+		if api != "ImportAccountDryRun" {
+			ent.Branch = []string{"E", "I"}[branchOf(api)]
+		}
+		res[api] = ent
+	}
+	out.Emit(map[string]interface{}{"calibration": res})
+	return nil
+}
+
+type job struct {
+	sc    scenario
+	extra []string
+}
+
+// jobs lists the scenarios of a run, in a fixed order for a given seed.
+func jobs(c *core.Common, stressOnly bool, standIns string) ([]job, error) {
+	var out []job
+	add := func(sc scenario, extra ...string) { out = append(out, job{sc, extra}) }
+	if standIns != "" {
+		var list []standIn
+		if err := json.Unmarshal([]byte(standIns), &list); err != nil {
+			return nil, fmt.Errorf("-standin: %w", err)
+		}
+		k := 0
+		for _, si := range list {
+			for _, br := range []string{"external", "internal"} {
+				if si.Branch != br && si.Branch != "both" {
+					continue
+				}
+				raw, req := "RawNextExternal", "NewAddress"
+				if br == "internal" {
+					raw, req = "RawNextInternal", "NewChangeAddress"
+				}
+				for _, first := range []bool{true, false} {
+					a, b := callSpec{API: raw, Scope: "84"}, callSpec{API: req, Scope: "84"}
+					if !first {
+						a, b = b, a
+					}
+					sc := windowScenario(a, b, false, k%3)
+					sc.StandIn, sc.Kind, sc.Warm = si.Site, "standin", k%2 == 0
+					k++
+					add(sc, "systematic")
+				}
+			}
+		}
+	}
+	if !stressOnly {
+		// systematic: B's whole request placed between A's commit and A's
+		// commit handlers, for every ordered pair of APIs on scope 84
+		// (CurrentAddress on an unused and on a used tip)
+		type v struct {
+			api  string
+			used bool
+		}
+		var vs []v
+		for _, a := range apis {
+			vs = append(vs, v{a, false})
+		}
+		vs = append(vs, v{"CurrentAddress", true})
+		k := 0
+		for _, a := range vs {
+			for _, b := range vs {
+				if a.api == "CurrentAddress" && b.api == "CurrentAddress" && a.used != b.used {
+					continue
+				}
+				sc := windowScenario(callSpec{API: a.api, Scope: "84"}, callSpec{API: b.api, Scope: "84"}, a.used || b.used, k%3)
+				sc.Warm = k%2 == 0
+				k++
+				add(sc, "systematic")
+			}
+		}
+		// systematic, continued: spends whose inputs belong to the imported
+		// account create their change on ACCOUNT 0, so they compete with
+		// every account-0 request on the internal branch; and requests on
+		// account 1, which has its own counters (no interference expected)
+		w := func(a, b callSpec, k int) {
+			sc := windowScenario(a, b, false, k%3)
+			sc.Warm = k%2 == 0
+			add(sc, "systematic")
+		}
+		k = 0
+		partners := []string{"NewChangeAddress", "NewAddress", "CurrentAddress", "CreateSimpleTx", "FundPsbt",
+			"SpendImported", "SpendImportedDry"}
+		for _, imp := range []string{"SpendImported", "FundPsbtImported"} {
+			for _, p := range partners {
+				a, b := callSpec{API: imp, Scope: "84"}, callSpec{API: p, Scope: "84"}
+				w(a, b, k)
+				k++
+				if p != imp {
+					w(b, a, k)
+					k++
+				}
+			}
+		}
+		others := []callSpec{{API: "NewChangeAddress", Scope: "84"}, {API: "CreateSimpleTx", Scope: "84"},
+			{API: "SpendImported", Scope: "84"}, {API: "NewChangeAddress", Scope: "84", Account: 1}}
+		for _, a1 := range []string{"CreateSimpleTx", "NewChangeAddress", "FundPsbt"} {
+			for _, b := range others {
+				a := callSpec{API: a1, Scope: "84", Account: 1}
+				w(a, b, k)
+				k++
+				w(b, a, k)
+				k++
+			}
+		}
+		for _, sc := range systematicExtra() {
+			add(sc, "systematic")
+		}
+	}
+	r := gen.New(c.Seed, 9)
+	for i := 0; i < c.N; i++ {
+		sc := randomScenario(r)
+		if stressOnly && sc.Kind != "stress" {
+			i--
+			continue
+		}
+		add(sc)
+	}
+	return out, nil
+}
+
+// fanOut runs the job list in `procs` child processes (child k runs the jobs
+// whose position is k modulo procs; every scenario has its own wallet file and
+// goroutines are inspected per process, so the scenarios do not interact) and
+// emits the cases in job order.
+// raceReports splits a child's stderr into the data-race reports of the Go
+// race detector, each attributed to the scenario that was running (the child
+// prints a marker line before every scenario).
+func raceReports(stderr string) map[int][]string {
+	out := map[int][]string{}
+	cur := -1
+	var blk []string
+	in := false
+	for _, line := range strings.Split(stderr, "\n") {
+		if strings.HasPrefix(line, "C09-SCENARIO ") {
+			fmt.Sscanf(line, "C09-SCENARIO %d", &cur)
+			continue
+		}
+		if strings.HasPrefix(line, "WARNING: DATA RACE") {
+			in, blk = true, []string{line}
+			continue
+		}
+		if in {
+			if strings.HasPrefix(line, "==================") {
+				out[cur] = append(out[cur], strings.Join(blk, "\n"))
+				in = false
+				continue
+			}
+			blk = append(blk, line)
+		}
+	}
+	return out
+}
+
+// onManagerState: does the race report involve the code under test's address
+// manager / wallet (as opposed to the harness's own bookkeeping)
+func onManagerState(report string) bool {
+	return strings.Contains(report, modPrefix+"waddrmgr.") || strings.Contains(report, modPrefix+"wallet.")
+}
+
+var childExe string
+
+func fanOut(procs, total int, out *core.Emitter) error {
+	type line struct {
+		K    int             `json:"_k"`
+		Case json.RawMessage `json:"case"`
+	}
+	results := make([][]line, procs)
+	errs := make([]error, procs)
+	stderrs := make([]bytes.Buffer, procs)
+	var wg sync.WaitGroup
+	for p := 0; p < procs; p++ {
+		wg.Add(1)
+		go func(p int) {
+			defer wg.Done()
+			args := append(append([]string{}, os.Args[1:]...), "-shard", fmt.Sprintf("%d/%d", p, procs))
+			exe := os.Args[0]
+			if childExe != "" {
+				exe = childExe
+			}
+			cmd := exec.Command(exe, args...)
+			cmd.Env = append(os.Environ(), "GORACE=halt_on_error=0 exitcode=0")
+			cmd.Stderr = &stderrs[p]
+			b, err := cmd.Output()
+			errs[p] = err
+			for _, l := range bytes.Split(b, []byte("\n")) {
+				if len(bytes.TrimSpace(l)) == 0 {
+					continue
+				}
+				var x line
+				if e := json.Unmarshal(l, &x); e != nil {
+					errs[p] = fmt.Errorf("child %d: %v", p, e)
+					continue
+				}
+				results[p] = append(results[p], x)
+			}
+		}(p)
+	}
+	wg.Wait()
+	byK := map[int]json.RawMessage{}
+	for _, rs := range results {
+		for _, x := range rs {
+			byK[x.K] = x.Case
+		}
+	}
+	// data races reported by a race-built child: an oracle kind of the
+	// scenario that was running when the report was printed
+	races := map[int][]string{}
+	for p := range stderrs {
+		for k, reps := range raceReports(stderrs[p].String()) {
+			races[k] = append(races[k], reps...)
+		}
+	}
+	for k := 0; k < total; k++ {
+		c, ok := byK[k]
+		if !ok {
+			continue
+		}
+		if reps := races[k]; len(reps) > 0 || childExe != "" {
+			var m map[string]interface{}
+			if err := json.Unmarshal(c, &m); err == nil {
+				if childExe != "" {
+					tags, _ := m["tags"].([]interface{})
+					m["tags"] = append(tags, "run_under_race_detector")
+				}
+				if len(reps) == 0 {
+					out.Emit(m)
+					continue
+				}
+				onMgr := false
+				var short []string
+				for _, rp := range reps {
+					onMgr = onMgr || onManagerState(rp)
+					if len(rp) > 1800 {
+						rp = rp[:1800]
+					}
+					short = append(short, rp)
+				}
+				if obs, ok := m["obs"].(map[string]interface{}); ok {
+					obs["race_reports"] = short
+				}
+				tags, _ := m["tags"].([]interface{})
+				if onMgr {
+					orc, _ := m["oracle"].([]interface{})
+					m["oracle"] = append(orc, "data_race")
+					m["tags"] = append(tags, "race_on_manager_state")
+				} else {
+					m["tags"] = append(tags, "race_in_harness_only")
+				}
+				out.Emit(m)
+				continue
+			}
+		}
+		out.Emit(c)
+	}
+	for p, err := range errs {
+		os.Stderr.Write(bytes.ReplaceAll(stderrs[p].Bytes(), []byte("C09-SCENARIO "), []byte("scenario ")))
+		if err != nil {
+			return fmt.Errorf("child process %d: %v", p, err)
+		}
+	}
+	return nil
+}
+
 func main() {
-	var stressOnly bool
+	var stressOnly, calibrate bool
+	var standIns, shard string
+	var procs int
 	core.Main("c09", func(fs *flag.FlagSet) {
 		fs.BoolVar(&stressOnly, "stress-only", false, "only ungated stress scenarios")
+		fs.StringVar(&standIns, "standin", "", `JSON list [{"site":..,"branch":..}] of issuing sites found in the source without the address mutex that cannot be called by name: an issuer of the same shape is run in their place`)
+		fs.BoolVar(&calibrate, "calibrate", false, "run every drivable request once and print which repository functions open its write transaction")
+		fs.IntVar(&procs, "procs", 4, "child processes the scenarios are spread over (1 = run in this process)")
+		fs.StringVar(&shard, "shard", "", "internal: k/n, run the jobs at positions k modulo n and tag the output lines")
+		fs.StringVar(&childExe, "child-exe", "", "run the scenarios in child processes of THIS executable (one built with -race): data races it reports become the oracle kind data_race of the scenario that was running")
 	}, func(c *core.Common, out *core.Emitter) error {
+		var list []job
+		if calibrate {
+			return runCalibration(out)
+		}
+		if c.Replay == "" {
+			var err error
+			if list, err = jobs(c, stressOnly, standIns); err != nil {
+				return err
+			}
+			if shard == "" && (childExe != "" || (procs > 1 && len(list) >= 2*procs)) {
+				if procs < 1 {
+					procs = 1
+				}
+				return fanOut(procs, len(list), out)
+			}
+		}
+		shardK, shardN := 0, 1
+		if shard != "" {
+			if _, err := fmt.Sscanf(shard, "%d/%d", &shardK, &shardN); err != nil || shardN < 1 {
+				return fmt.Errorf("-shard %q", shard)
+			}
+		}
 		waddrmgr.SetSecretKeyGen(fastKeyGen)
 		dir, err := os.MkdirTemp("", "vh-c09-")
 		if err != nil {
@@ -1259,14 +2382,29 @@ func main() {
 		if err := e.makeTemplate(); err != nil {
 			return fmt.Errorf("template wallet: %w", err)
 		}
+		pos := -1
+		emit := func(co caseOut) {
+			if shard != "" {
+				out.Emit(struct {
+					K    int     `json:"_k"`
+					Case caseOut `json:"case"`
+				}{pos, co})
+				return
+			}
+			out.Emit(co)
+		}
 		runOne := func(sc scenario, extra ...string) error {
 			if sc.Pre == nil {
 				sc.Pre = []callSpec{}
 			}
+			t0 := time.Now()
 			o, err := e.runScenario(sc)
+			if os.Getenv("C09_TIMING") != "" {
+				fmt.Fprintf(os.Stderr, "timing %s calls=%d native=%v ms=%d\n", sc.Kind, len(sc.Calls), sc.Native, time.Since(t0).Milliseconds())
+			}
 			if errors.Is(err, errStuck) {
 				// report what was seen, then stop: the process cannot continue
-				out.Emit(caseOut{In: sc, Obs: o, Oracle: []string{}, Tags: append(tagsOf(sc, o), "stuck"), Site: "*"})
+				emit(caseOut{In: sc, Obs: o, Oracle: []string{}, Tags: append(tagsOf(sc, o), "stuck"), Site: "*"})
 				return fmt.Errorf("%w: %s", err, strings.Join(o.Notes, "; "))
 			}
 			if err != nil {
@@ -1274,18 +2412,45 @@ func main() {
 			}
 			tags := append(tagsOf(sc, o), extra...)
 			site := "*"
-			// the site named in a finding: the first call involved in a duplicate
+			// the site named in a finding: the recovery if one ran, the
+			// source site a stand-in issuer represents, else the first call
+			// involved in a duplicate
 			seen := map[string]bool{}
-			for _, cl := range o.Calls {
-				if cl.Err == "" && cl.Commits && cl.N > 0 && cl.Addr != "" {
-					if seen[cl.Addr] {
-						site = cl.Site
-						break
+			for _, cl := range append(append([]callObs{}, o.Calls...), o.Post...) {
+				if cl.Err == "" && cl.Commits && cl.N > 0 && !isRecover(cl.API) {
+					dup := false
+					for _, a := range cl.Addrs {
+						dup = dup || seen[a]
+						seen[a] = true
 					}
-					seen[cl.Addr] = true
+					if dup && site == "*" {
+						site = cl.Site
+					}
 				}
 			}
-			out.Emit(caseOut{In: sc, Obs: o, Oracle: append([]string{}, oracle(o)...), Tags: tags, Site: site})
+			for _, cl := range o.Calls {
+				if isRecover(cl.API) {
+					site = cl.Site
+				}
+			}
+			if sc.StandIn != "" {
+				site = sc.StandIn
+			}
+			orc := append([]string{}, oracle(o)...)
+			if hasRaw(sc) && sc.StandIn == "" {
+				// negative control: the violation is the expected outcome
+				o.Control, orc = orc, []string{}
+				if sc.Kind == "control" {
+					found := false
+					for _, k := range o.Control {
+						found = found || k == "duplicate_address"
+					}
+					if !found {
+						orc = []string{"harness_negative_control_silent"}
+					}
+				}
+			}
+			emit(caseOut{In: sc, Obs: o, Oracle: orc, Tags: tags, Site: site})
 			return nil
 		}
 		if c.Replay != "" {
@@ -1299,86 +2464,15 @@ func main() {
 				return runOne(cs.In, "replay")
 			})
 		}
-		if !stressOnly {
-			// systematic: B's whole request placed between A's commit and A's
-			// commit handlers, for every ordered pair of APIs on scope 84
-			// (CurrentAddress on an unused and on a used tip)
-			type v struct {
-				api  string
-				used bool
-			}
-			var vs []v
-			for _, a := range apis {
-				vs = append(vs, v{a, false})
-			}
-			vs = append(vs, v{"CurrentAddress", true})
-			k := 0
-			for _, a := range vs {
-				for _, b := range vs {
-					if a.api == "CurrentAddress" && b.api == "CurrentAddress" && a.used != b.used {
-						continue
-					}
-					sc := windowScenario(callSpec{API: a.api, Scope: "84"}, callSpec{API: b.api, Scope: "84"}, a.used || b.used, k%3)
-					sc.Warm = k%2 == 0
-					k++
-					if err := runOne(sc, "systematic"); err != nil {
-						return err
-					}
-				}
-			}
-		}
-		if !stressOnly {
-			// systematic, continued: spends whose inputs belong to the imported
-			// account create their change on ACCOUNT 0, so they compete with
-			// every account-0 request on the internal branch; and requests on
-			// account 1, which has its own counters (no interference expected)
-			w := func(a, b callSpec, k int) error {
-				sc := windowScenario(a, b, false, k%3)
-				sc.Warm = k%2 == 0
-				return runOne(sc, "systematic")
-			}
-			k := 0
-			partners := []string{"NewChangeAddress", "NewAddress", "CurrentAddress", "CreateSimpleTx", "FundPsbt",
-				"SpendImported", "SpendImportedDry"}
-			for _, imp := range []string{"SpendImported", "FundPsbtImported"} {
-				for _, p := range partners {
-					a, b := callSpec{API: imp, Scope: "84"}, callSpec{API: p, Scope: "84"}
-					if err := w(a, b, k); err != nil {
-						return err
-					}
-					k++
-					if p != imp {
-						if err := w(b, a, k); err != nil {
-							return err
-						}
-						k++
-					}
-				}
-			}
-			others := []callSpec{{API: "NewChangeAddress", Scope: "84"}, {API: "CreateSimpleTx", Scope: "84"},
-				{API: "SpendImported", Scope: "84"}, {API: "NewChangeAddress", Scope: "84", Account: 1}}
-			for _, a1 := range []string{"CreateSimpleTx", "NewChangeAddress", "FundPsbt"} {
-				for _, b := range others {
-					a := callSpec{API: a1, Scope: "84", Account: 1}
-					if err := w(a, b, k); err != nil {
-						return err
-					}
-					k++
-					if err := w(b, a, k); err != nil {
-						return err
-					}
-					k++
-				}
-			}
-		}
-		r := gen.New(c.Seed, 9)
-		for i := 0; i < c.N; i++ {
-			sc := randomScenario(r)
-			if stressOnly && sc.Kind != "stress" {
-				i--
+		for k, j := range list {
+			if k%shardN != shardK {
 				continue
 			}
-			if err := runOne(sc); err != nil {
+			pos = k
+			if shard != "" {
+				fmt.Fprintf(os.Stderr, "C09-SCENARIO %d\n", k)
+			}
+			if err := runOne(j.sc, j.extra...); err != nil {
 				return err
 			}
 		}
